@@ -2,7 +2,7 @@
    Statements only; proofs in Proofs/Hyper*.v.  [sdecode]/[sencode]/[dna_spec] : Model/Hyper.v;  [shape], [veq],
    [distinguishable], [hypers_of], [shallow], [wf_t] : Model/HyperSpec.v;  [valid], [all_valid], [space_size] : Model/Geno.v (C11).
    User code of CustomHyper subclasses is [cdec]/[cenc]; what each theorem assumes of it is in its statement. *)
-From PG Require Import Common.Tactics Model.Geno Model.Hyper Model.HyperSpec Model.HyperRun
+From PG Require Import Common.Tactics Model.Geno Model.Hyper Model.HyperSpec Model.HyperRun Model.HyperTyping Proofs.HyperTypingProofs
   Proofs.HyperBasics Proofs.HyperDecode Proofs.HyperEncode Proofs.HyperIter Proofs.HyperConcrete Proofs.HyperInstance.
 
 (* the theorems below speak about [sdecode] on structured decisions; this is what the code computes on the concrete DNA
@@ -107,6 +107,17 @@ Theorem C13_iter_count : forall cdec w t, hwf t = true -> wf_t t -> finite (dna_
      sdecode cdec w t d1 = Ok v1 -> sdecode cdec w t d2 = Ok v2 -> veq v1 v2 = true -> d1 = d2).
 Proof. exact iter_count. Qed.
 Print Assumptions C13_iter_count.
+
+(* a value decoded from a placeholder that was bound to a value spec (C04's [Typing.spec], [Typing.accepts]) is accepted by
+   that spec.  [bound] (Model/HyperTyping.v) is the binding-time validation of OneOf / ManyOf / Float.custom_apply.
+   PARTIAL: placeholder trees of oneof / manyof / floatv whose other candidates are constants, no filter; missing:
+   candidates that are containers with placeholders inside (validated field by field by the spec's own apply), Union /
+   Any specs, filters.  A custom hyper is accepted by every spec (CustomHyper.custom_apply), so nothing holds for it. *)
+Theorem C13_decode_respects_spec_partial : forall cdec t sp d v, bound sp t ->
+  valid (dna_spec (fun _ => true) t) d = true -> sdecode cdec (fun _ => true) t d = Ok v ->
+  exists pv, to_pv v = Some pv /\ T.accepts sp pv.
+Proof. exact decode_respects_spec. Qed.
+Print Assumptions C13_decode_respects_spec_partial.
 
 (* the custom hypers and the filters of the check meet the assumptions above *)
 Theorem C13_check_instance :
